@@ -45,7 +45,12 @@ TAGS = ['runtime', 'devel', 'man', 'doc', 'mine', 'tägged', 'i18n', 'bin-devel'
 
 KILLER = 'c11-killer.sh'
 KILLER_SH = ('#!/bin/sh\n# runs last; the parent is the `meson install` process (run_exe -> Popen)\n'
-             'if [ -n "$C11_KILL_PARENT" ]; then kill -KILL $PPID; sleep 0.2; fi\nexit 0\n')
+             'if [ -n "$C11_KILL_PARENT" ]; then kill -KILL $PPID; sleep 0.2; fi\n'
+             'if [ -n "$C11_SCRIPT_EXIT" ]; then exit "$C11_SCRIPT_EXIT"; fi\nexit 0\n')
+# Placeholder for "the DESTDIR this project will be installed under" (coincide projects): absolute install dirs and
+# prefixes that textually start with the DESTDIR string (the same path, below it, or a sibling such as <destdir>-shared).
+# They are paths of the final system like any other absolute path and must be re-rooted under DESTDIR.
+DD = '/@DESTDIR@'
 
 
 def perms_bits(s: str) -> int:
@@ -67,8 +72,9 @@ def qlist(xs: T.Sequence[str]) -> str:
 
 
 class Gen:
-    def __init__(self, seed: T.Any, kind: str) -> None:
+    def __init__(self, seed: T.Any, kind: str, coincide: bool = False) -> None:
         self.rng = random.Random(f'c11gen:{seed}')
+        self.coincide = coincide
         self.kind = kind  # 'data' (backend none) | 'custom' (language-less, ninja) | 'c'
         self.n = 0
         self.files: T.Dict[str, dict] = {}      # source tree: rel -> {'content','mode'} | {'symlink'}
@@ -126,7 +132,7 @@ class Gen:
     def pick_options(self) -> None:
         r = self.rng
         self.opts = {
-            'prefix': r.choice(PREFIXES),
+            'prefix': r.choice(PREFIXES + ([DD + '/pfx', DD + 'x/usr', DD] * 2 if self.coincide else [])),
             'bindir': r.choice(['bin', 'bin', 'b in']),
             'libdir': r.choice(['lib', 'lib64', 'lib/x86_64-linux-gnu']),
             'includedir': r.choice(['include', 'include', 'inc lude']),
@@ -137,6 +143,8 @@ class Gen:
         }
         self.features.add('umask:' + self.opts['install_umask'])
         self.features.add('prefix:' + self.opts['prefix'])
+        if self.opts['prefix'].startswith(DD):
+            self.features.add('coincide:prefix-starts-with-destdir')
 
     @property
     def umask(self) -> T.Optional[int]:
@@ -220,6 +228,9 @@ class Gen:
         r = self.rng
         x = r.random()
         o = self.opts
+        if self.coincide and x < 0.35:
+            self.features.add('coincide:absolute-dir-starts-with-destdir')
+            return r.choice([DD + '-shared/data', DD + '/etc/in side', DD + '2', DD + '/' + 'sub ' + str(self.u()), DD + '-x/y ' + str(self.u())])
         if x < 0.2:
             self.features.add('dir:absolute')
             # absolute directories carry a marker: a DESTDIR escape lands where the harness can find and remove it
@@ -746,9 +757,10 @@ class Gen:
 KINDS_DATA = ['data', 'data', 'data', 'headers', 'headers', 'man', 'subdir', 'subdir', 'emptydir', 'symlink', 'configure']
 
 
-def gen_project(seed: T.Any, kind: str, n_rules: T.Optional[int] = None) -> dict:
-    """One project spec: source tree, meson options, rules, expected entries."""
-    g = Gen(seed, kind)
+def gen_project(seed: T.Any, kind: str, n_rules: T.Optional[int] = None, coincide: bool = False) -> dict:
+    """One project spec: source tree, meson options, rules, expected entries.
+    coincide: some absolute dirs / the prefix start with the placeholder DD (resolve_destdir() before use)."""
+    g = Gen(seed, kind, coincide)
     r = g.rng
     g.pick_options()
     g.projname = 'pröj ' + str(r.randint(1, 99)) if r.random() < 0.5 else 'proj' + str(r.randint(1, 99))
@@ -819,7 +831,7 @@ def gen_project(seed: T.Any, kind: str, n_rules: T.Optional[int] = None) -> dict
         'seed': str(seed), 'kind': kind, 'backend': 'none' if kind == 'data' else 'ninja',
         'project_name': g.projname, 'options': g.opts, 'files': g.files, 'dirs': g.dirs, 'rules': g.rules,
         'entries': g.entries, 'features': sorted(g.features), 'tags': tags,
-        'has_subproject': bool(blocks['sp']), 'needs_build': kind != 'data', 'has_killer': has_killer,
+        'has_subproject': bool(blocks['sp']), 'needs_build': kind != 'data', 'has_killer': has_killer, 'coincide': coincide,
     }
 
 
@@ -954,6 +966,15 @@ def directed_probes() -> T.List[dict]:
                'follow_symlinks': False})
     p5['histories'] = ['repeat']
     probes.append(p5)
+    # F6: a source symlink whose target vanished after configuring (dangling at install time) + rename
+    p6 = base('dangling-symlink-rename',
+              ["install_data('lnk.txt', rename: 'renamed.txt', install_dir: 'share/dg')"],
+              {'real.txt': f('r\n'), 'lnk.txt': {'symlink': 'real.txt'}},
+              [{'path': '/usr/share/dg/renamed.txt', 'src': 'real.txt'}],
+              {'kind': 'data', 'sub': '', 'srcs': ['lnk.txt'], 'install_dir': 'share/dg', 'rename': ['renamed.txt'], 'preserve_path': False,
+               'follow_symlinks': None})
+    p6['histories'] = ['abort=source-vanished']
+    probes.append(p6)
     # B1: baseline (must hold): features the random quick workload may not draw in a given seed - symlinks to existing
     # directories ('.', '..', '/'), default tags of man/headers/bindir files, untagged data, subproject + tags, excludes
     stm = [
@@ -991,6 +1012,29 @@ def directed_probes() -> T.List[dict]:
     b1['has_subproject'] = True
     probes.append(b1)
     return probes
+
+
+def resolve_destdir(spec: dict, destdir: str) -> dict:
+    """Replace the DESTDIR placeholder of a coincide project by the concrete (absolute, plain ASCII) DESTDIR path."""
+    import json
+    assert destdir.startswith('/') and '"' not in destdir and '\\' not in destdir
+    out = json.loads(json.dumps(spec).replace(DD, destdir))
+    # entries were normalised with the placeholder in place; do it again with the real text
+    for e in out['entries']:
+        e['path'] = posixpath.normpath(e['path'])
+    return out
+
+
+def gen_coincide(seed: int, tier: str, n: int) -> T.List[dict]:
+    """n data-only projects whose absolute install dirs / prefix textually start with the DESTDIR they are installed under."""
+    out = []
+    i = 0
+    while len(out) < n and i < 20 * n:
+        sp = gen_project(f'{seed}:{tier}:coincide:{i}', 'data', coincide=True)
+        i += 1
+        if any(f.startswith('coincide:') for f in sp['features']):
+            out.append(sp)
+    return out
 
 
 def gen_workload(seed: int, tier: str, n: int) -> T.List[dict]:
